@@ -24,7 +24,7 @@ def shard(ctx, budget_s):
     deadline = time.time() + budget_s
     n = 0
     while time.time() < deadline or n == 0:
-        cfg = gen.rnd_config(rng, deny=False, logger="n", level=0)
+        cfg = gen.rnd_config(rng, deny=False, logger=rng.choice("nnncl"), level=rng.choice([0, 0, 2, 3, 4, 5]))
         ctx.case(cfg)
         lab = AppLab(ctx, cfg)
         for _ in range(60):
